@@ -180,15 +180,30 @@ func (r *Run) Drive(done func() bool, horizon time.Duration, maxSteps int) EndRe
 			return EndHorizon
 		}
 		if r.S.Step(remaining) == simrt.Idle {
-			return EndHorizon
+			// Nothing the scheduler knows of can happen any more. Give timers owned by the system
+			// itself (none in servitor today) the rest of the horizon, then give up.
+			r.S.SleepIdle(remaining)
+			synctest.Wait()
+			if done() {
+				return EndDone
+			}
+			if len(r.S.PendingKeys()) == 0 || r.S.Now() >= horizon {
+				return EndHorizon
+			}
 		}
 	}
 }
 
 // Settle lets everything that can happen without new input happen (used by settled pacing):
 // it runs until no event is pending any more, i.e. all loads have finished or are stuck.
-func (r *Run) Settle(horizon time.Duration, maxSteps int) EndReason {
-	return r.Drive(func() bool { return false }, horizon, maxSteps)
+func (r *Run) Settle(maxSteps int) (quiet bool) {
+	startSteps := r.S.Steps()
+	for r.S.Steps()-startSteps < maxSteps {
+		if r.S.Step(time.Hour) == simrt.Idle {
+			return true
+		}
+	}
+	return false
 }
 
 // ------------------------------------------------------------------------------------------
